@@ -662,6 +662,13 @@ def module_expr_term(model, mod, e, depth=0):
             for a in reversed(parts):
                 t = ("attr", t, a)
             return t
+        # a member of a class of the package (an enumeration member bound to a module-level name)
+        if isinstance(cur, ast.Name) and (cur.id in mod.classes or cur.id in mod.imports):
+            t = global_term(model, mod, cur.id)
+            if t[0] == "class":
+                for a in reversed(parts):
+                    t = ("attr", t, a)
+                return t
         return None
     if isinstance(e, ast.Name) and e.id in mod.assigns and len(mod.assigns[e.id]) == 1:
         return module_expr_term(model, mod, mod.assigns[e.id][0], depth + 1)
